@@ -196,6 +196,11 @@ Theorem C08_pick_is_first_done : forall flags futs x rest, pick flags futs = Som
 Proof. exact pick_first. Qed.
 Print Assumptions C08_pick_is_first_done.
 
+(* the default pre_dispatch (parallel setter) keeps at least workers + 4 trials in flight *)
+Theorem C08_pre_dispatch_exceeds_workers : forall nw, nw + 4 <= pre_dispatch_of nw.
+Proof. exact pre_dispatch_exceeds_workers. Qed.
+Print Assumptions C08_pre_dispatch_exceeds_workers.
+
 (* ---------------- non-vacuity ---------------- *)
 (* five submissions; results: 7, failed, 3, 3 (a tie), NaN; pre_dispatch 2; a scheduler that
    always finishes the most recent submission first; the library is not adaptive *)
